@@ -121,8 +121,11 @@ enum Route {
     RuntimeHeld,
     /// the same after a second install on that runtime was refused (it panics)
     RuntimeAfterRejectedInstall,
+    /// created under `set_time_source`; before anything is closed that override ends and ANOTHER
+    /// one (a decoy clock) is installed: close-timestamps still read the clock captured at creation
+    ThreadLocalReplacedBeforeClose,
 }
-const ROUTES: [Route; 6] = [Route::Explicit, Route::ThreadLocalHeld, Route::ThreadLocalDropped, Route::ThreadLocalNested, Route::RuntimeHeld, Route::RuntimeAfterRejectedInstall];
+const ROUTES: [Route; 7] = [Route::Explicit, Route::ThreadLocalHeld, Route::ThreadLocalDropped, Route::ThreadLocalNested, Route::RuntimeHeld, Route::RuntimeAfterRejectedInstall, Route::ThreadLocalReplacedBeforeClose];
 impl Route {
     fn name(self) -> &'static str {
         match self {
@@ -132,6 +135,7 @@ impl Route {
             Route::ThreadLocalNested => "thread-local-outer-after-inner-override-ended:now",
             Route::RuntimeHeld => "tokio-runtime-wide:now",
             Route::RuntimeAfterRejectedInstall => "tokio-runtime-wide-after-refused-second-install:now",
+            Route::ThreadLocalReplacedBeforeClose => "thread-local-replaced-by-another-override-before-close:now",
         }
     }
 }
@@ -188,7 +192,7 @@ fn scenario(t_create: i64, t_close: i64, adv_s: u64, route: Route) -> Observed {
         calls += 1;
         match route {
             Route::Explicit => Timestamp::new_from_time_source(ts.clone()),
-            Route::ThreadLocalHeld | Route::ThreadLocalNested | Route::RuntimeHeld | Route::RuntimeAfterRejectedInstall => Timestamp::now(),
+            Route::ThreadLocalHeld | Route::ThreadLocalNested | Route::RuntimeHeld | Route::RuntimeAfterRejectedInstall | Route::ThreadLocalReplacedBeforeClose => Timestamp::now(),
             Route::ThreadLocalDropped => Timestamp::default(),
         }
     };
@@ -210,6 +214,7 @@ fn scenario(t_create: i64, t_close: i64, adv_s: u64, route: Route) -> Observed {
     if route != Route::ThreadLocalHeld && route != Route::ThreadLocalNested {
         guard = None;
     }
+    let replaced_by = (route == Route::ThreadLocalReplacedBeforeClose).then(|| set_time_source(TimeSource::custom(ManuallyAdvancedTimeSource::at_time(sys(66_000_000_000_000_000)))));
     // the wall clock jumps to the close time; the monotonic clock moves independently
     clock.update_time(sys(t_close));
     clock.update_instant(Duration::from_secs(adv_s));
@@ -219,6 +224,7 @@ fn scenario(t_create: i64, t_close: i64, adv_s: u64, route: Route) -> Observed {
     let direct_system_time: SystemTime = v.into();
     let e = test_metric(entry);
     calls += 4 + 9;
+    drop(replaced_by);
     drop(guard);
     drop(rt_guards);
     Observed {
